@@ -163,6 +163,16 @@ CLAIMS = {
              'KNOWN-FINDING for F17 and alarms on any host-dependence not explained by those five tables',
         technique='Coq proof (dependency analysis; refutation witness by vm_compute) + two-host correspondence',
         ref='DESIGN.md §5 C18'),
+    'C08': dict(
+        text='Coq theorems c08_lookup/string/threadname_roundtrip (reassembly of the kernel\'s chunking returns exactly the '
+             'original text and ids, for texts of ANY length, by induction over the records), c08_once / c08_once_single (through '
+             'the pairing machine, after ANY history: no trace until the END record, which delivers the whole run), '
+             'c08_sweep_paths_in_order + c08_path_shown (every path-taking syscall row shows lookups in lookup order); closed under '
+             'the global context. Correspondence on every boundary length with multi-byte characters; once-ness and syscall paths '
+             'through the public API with unrelated records in between.',
+        note='trusted: Coq kernel+vm_compute; Chunks.v hand models (kernel encoders on the spec side) validated against the real '
+             'decoders; pairing model of C04; regenerated rows for the syscall path arguments; UTF-8 decoding is a library oracle',
+        technique='Coq proof (encoder/reassembler round trip, pairing spec) + correspondence', ref='DESIGN.md §5 C08'),
     'C12': dict(
         text='Coq theorems c12_events/sat_meaning/logs/no_logs_in_events/no_events_in_logs: for EVERY stream and EVERY '
              'configuration the filtered listings equal `filter` of the unfiltered listing by the stated predicate (order and '
